@@ -33,6 +33,10 @@ IsoU(g) == IF g = 1 THEN Two ELSE <<Two, One>>
 FMulG(g, a, b) == IF g = 1 THEN QMul(a, b) ELSE F2Mul(a, b)
 IsoX(g, P) == FMulG(g, FMulG(g, IsoU(g), IsoU(g)), P[1])
 IsoY(g, P) == FMulG(g, FMulG(g, FMulG(g, IsoU(g), IsoU(g)), IsoU(g)), P[2])
+M(v) == FqM!Mont(v)
+\* a non-identity point killed by the cofactor: [r]N for a curve point N outside the order-r subgroup
+Tor(g) == SMul(g, RMod, NonSub(g))
+ASSUME Tor(1) # <<>> /\ Tor(2) # <<>>
 SetByte(b, i, v) == [b EXCEPT ![i] = v]
 OrByte(b, i, m) == [b EXCEPT ![i] = (b[i] - (b[i] % (2 * m)) + (IF (b[i] \div m) % 2 = 1 THEN b[i] % (2 * m) ELSE (b[i] % (2 * m)) + m))]
 ToSeq(f) == [i \in 1..Len(f) |-> f[i]]
@@ -101,8 +105,17 @@ RandCases ==
   \o SetToSeq({ [op |-> "rand.fq", stream |-> Cat([i \in 1..Len(FqCands[k]) |-> LE(FqCands[k][i], 48)]), src |-> "gen"] : k \in 1..Len(FqCands) })
   \o SetToSeq({ [op |-> "rand.fq2", stream |-> Cat([i \in 1..Len(FqCands[k]) |-> LE(FqCands[k][i], 48)]), src |-> "gen"] : k \in 1..Len(FqCands) })
   \o SetToSeq({ [op |-> "rand.powx", stream |-> s, src |-> "gen"] : s \in PowXStreams })
-  \o SetToSeq({ [op |-> "rand.g1", stream |-> LE(QMod, 48) \o LE(NoY(1), 48) \o <<b>> \o LE(FromNat(k), 48) \o <<b>>, src |-> "gen"] : b \in {0, 1}, k \in {0, 1, 2, 3} })
-  \o SetToSeq({ [op |-> "rand.g2", stream |-> LE(QMod, 48) \o LE(NoY(2)[1], 48) \o LE(NoY(2)[2], 48) \o <<b>> \o LE(FromNat(k), 48) \o LE(One, 48) \o <<b>>, src |-> "gen"] : b \in {0, 1}, k \in {1, 2, 3} })
+  \* the samplers fill the field element's storage directly, i.e. the stream bytes are Montgomery residues: candidates are given in that form.
+  \* Candidate sequence: >= q (rejected by the field sampler), an x without y (rejected by the curve equation), then a small x; and
+  \* torsion candidates - x of a point of order dividing the cofactor ((0, 2) on E; [r]N for a curve point N outside the subgroup),
+  \* which cofactor clearing sends to the identity: the sampler must retry - followed by the generator's x.
+  \o SetToSeq({ [op |-> "rand.g1", stream |-> LE(QMod, 48) \o LE(M(NoY(1)), 48) \o <<b>> \o LE(M(FromNat(k)), 48) \o <<b>> \o LE(M(G1GenX), 48) \o <<b>>, src |-> "gen"] :
+                b \in {0, 1}, k \in {0, 1, 2, 3} })
+  \o SetToSeq({ [op |-> "rand.g1", stream |-> LE(M(Tor(1)[1]), 48) \o <<b>> \o LE(M(G1GenX), 48) \o <<b>>, cls |-> "torsion-candidate", src |-> "gen"] : b \in {0, 1} })
+  \o SetToSeq({ [op |-> "rand.g2", stream |-> LE(QMod, 48) \o LE(M(NoY(2)[1]), 48) \o LE(M(NoY(2)[2]), 48) \o <<b>> \o LE(M(FromNat(k)), 48) \o LE(M(One), 48) \o <<b>>
+                                               \o LE(M(G2GenX[1]), 48) \o LE(M(G2GenX[2]), 48) \o <<b>>, src |-> "gen"] : b \in {0, 1}, k \in {1, 2, 3} })
+  \o SetToSeq({ [op |-> "rand.g2", stream |-> LE(M(Tor(2)[1][1]), 48) \o LE(M(Tor(2)[1][2]), 48) \o <<b>> \o LE(M(G2GenX[1]), 48) \o LE(M(G2GenX[2]), 48) \o <<b>>,
+                 cls |-> "torsion-candidate", src |-> "gen"] : b \in {0, 1} })
 
 What == IF "WHAT" \in DOMAIN IOEnv THEN IOEnv.WHAT ELSE "enc"
 Cases == IF What = "enc" THEN EncCases(1) \o EncCases(2) ELSE HashCases \o RandCases
